@@ -222,6 +222,28 @@ ROUND4 = {
  "C20": " Inputs include integer, nullable-integer and float32 readings.",
 }
 
+# ... and the fifth round (DESIGN.md section 19)
+ROUND5 = {
+ "C01": " Round 5: profiles whose custom week is actually selected, a CalTRACK baseline with an hour of the week never metered, a float32 meter with an extreme value, and one default-featured hourly object fitted on baselines with and without irradiance.",
+ "C02": " Round 5: another model fitted on / predicting the same instants in a zone with the same offsets but other clock changes.",
+ "C03": " Round 5: ESCH twice in one process in the quick tier; silhouette-scored temporal clusters after different uses of numpy's global generator.",
+ "C04": " Round 5: an hourly baseline whose only defect is irradiance coverage.",
+ "C05": " Round 5: CalTRACK from_series with the two series in different zones (both orientations).",
+ "C06": " Round 5: billing frames with an off-cycle usage gap.",
+ "C07": " Round 5: half-hourly weather feeds with whole-day outages, aggregated rows paired and equal to the sums of their complete days, a first billing period without consumption.",
+ "C10": " Round 5: zones changing at local midnight with the no-midnight day first / last in the data.",
+ "C11": " Round 5: the sweep embedded between mild days; one object fitted on two buildings shows the curve of the coefficients it publishes.",
+ "C12": " Round 5: regimes active on every day but one.",
+ "C13": " Round 5: cells with about segment_minimum_count days under the current and legacy profiles; two gapped frames of one period on one object; the default criterion recomputed from the fitted components by the textbook formula; a meter one split reproduces exactly.",
+ "C14": " Round 5: NaN elements of list-valued fields; wavelet names (continuous-only families are invalid).",
+ "C16": " Round 5: net-metered daily / billing fits (usage below zero on some days).",
+ "C17": " Round 5: negative gas readings; timestamps in a tz-aware datetime column.",
+ "C18": " Round 5: hour of week on stamps off the local hour; fit design matrices with the weather series localized differently from the meter.",
+ "C19": " Round 5: a fitted model refitted between two predictions of one data object.",
+ "C20": " Round 5: max_days of half a day and zero; limits as stdlib datetimes and max_days as numpy integers.",
+}
+
+
 def main():
     props = [json.loads(l) for l in open(os.path.join(HERE, "properties.jsonl"))]
     checks = []
@@ -237,7 +259,8 @@ def main():
                 "evidence_file": f"/verif/evidence/{pid}.json",
                 "replay_cmd_template": f"cd /verif && {PY} -m mc.run {pid} --replay {{path}}",
                 "engine": "mc",
-                "level_claimed": {"category": cat, "text": text + ROUND4.get(pid, ""), "design_ref": ref + ("; section 18" if pid in ROUND4 else "")},
+                "level_claimed": {"category": cat, "text": text + ROUND4.get(pid, "") + ROUND5.get(pid, ""),
+                                  "design_ref": ref + ("; section 18" if pid in ROUND4 else "") + ("; section 19" if pid in ROUND5 else "")},
                 "level_note": note,
                 "technique": tech,
             })
